@@ -3,7 +3,8 @@ from .pdb import strip, walk, loc, ancestors
 from .terms import Ctx, lin_add, num, show, lin_parts
 from .common import (P, F, LEN, SIZE, NE, effective_guards, effects, callee_path, callee_generic, call_args, subst_term,
                      rule_no_unsafe, is_call_like, in_macro, is_push)
-from .guards import for_range
+from .guards import for_range as raw_for_range
+from .common import for_range_total as for_range
 
 LEVEL = "other"
 PATH = "vector::Vector<f64>::dot_f64"
